@@ -144,6 +144,13 @@ def window_oracle(kind):
             )
         exp = ref_window(kind, n, fh, wl, step, iw, sww)
         got = collect(cv, y)
+        # a splitter is reusable: a second pass yields the same splits and the caller's
+        # horizon argument is left as it was
+        got2 = collect(cv, y)
+        if not isinstance(got, Raised) and (isinstance(got2, Raised) or got2 != got):
+            discs.append(D("second_pass_differs", "first %s second %s" % (got[:3], got2 if isinstance(got2, Raised) else got2[:3])))
+        if sut(lambda: as_list(fharg if not isinstance(fharg, int) else [fharg])) != fh:
+            discs.append(D("caller_fh_modified", "fh argument now %r, was %s" % (fharg, fh)))
         if exp is None:
             ctx.label("infeasible")
             if isinstance(got, Raised):
